@@ -2,7 +2,7 @@
    form is one well-formed RFC 8259 object; its keys are the configured fields, renamed, in configured order;
    a field of the struct is always written, a custom field exactly when the flow carries it; the text form
    lists the same members. *)
-From Coq Require Import String NArith List Bool Lia.
+From Coq Require Import String Ascii NArith List Bool Lia.
 From GF Require Import Base.Res Base.Bytes Model.Msg Model.Json Model.Cfg Model.Render Model.Format
      Spec.JsonGrammar Spec.RenderTables Proofs.FormatP Proofs.RenderP Proofs.Utf8P.
 Import ListNotations.
@@ -246,4 +246,68 @@ Proof.
   unfold msg_key. destruct (cKeys c) as [|x r]; intros H.
   - left. inversion H. split; reflexivity.
   - right. destruct (key_texts c m (x :: r)); [|discriminate]. inversion H. split; [discriminate|reflexivity].
+Qed.
+
+(* ---- the default configuration: the general formatter is the default formatter of Model/Render.v ---- *)
+Definition c0 : fmtc := {| cFields := all_fields; cRename := []; cRend := []; cCustoms := []; cKeys := [] |}.
+Lemma compile_default : compile_fmt empty_afmt [] = Some c0.
+Proof. reflexivity. Qed.
+
+Lemma elems_num m f l : render_elems "NilRenderer" m f (map GU32 l) = Some (map (fun x => JNum (show_dec x)) l).
+Proof. induction l as [|x r IH]; [reflexivity|]. cbn [map render_elems]. rewrite IH. reflexivity. Qed.
+Lemma elems_ip m f l : render_elems "IPRenderer" m f (map GBytes l) = Some (map (fun x => JStr (render_ip x)) l).
+Proof. induction l as [|x r IH]; [reflexivity|]. cbn [map render_elems]. rewrite IH. reflexivity. Qed.
+Lemma elems_enum m f t l : render_elems "NilRenderer" m f (map (GEnum t) l) = Some (map (fun x => JStr (enum_name t x)) l).
+Proof. induction l as [|x r IH]; [reflexivity|]. cbn [map render_elems]. rewrite IH. reflexivity. Qed.
+
+Ltac entry :=
+  cbv [format_field c0 cRename cRend cCustoms sassoc remap is_custom existsb struct_by_json struct_by_go find name_table
+       String.eqb Ascii.eqb Bool.eqb render_fn default_renderers is_slice slice_fields rev app struct_value col_bits
+       N.eqb Pos.eqb orb andb negb apply_renderer nil_renderer jval_of render_col unk_value unk fst snd];
+  rewrite ?elems_num, ?elems_ip, ?elems_enum; reflexivity.
+
+Lemma default_entry m j g col k : In (j, g, col, k) name_table ->
+  format_field c0 m j = Some (Some (bytes_of_string j, render_col m g col k)).
+Proof.
+  intros H. unfold name_table in H.
+  repeat (destruct H as [H|H]; [inversion H; subst; clear H; entry|]). contradiction.
+Qed.
+
+Lemma default_members_eq m : forall t, incl t name_table ->
+  format_members c0 m (map (fun r => let '(j, _, _, _) := r in j) t) =
+  Some (map (fun r => let '(json, go, col, k) := r in (bytes_of_string json, render_col m go col k)) t).
+Proof.
+  induction t as [|[[[j g] col] k] r IH]; intros Hi; [reflexivity|].
+  cbn [map format_members]. rewrite (default_entry m j g col k); [|apply Hi; left; reflexivity].
+  rewrite IH; [reflexivity|]. intros x Hx. apply Hi. right. exact Hx.
+Qed.
+
+Lemma show_jval_u_ascii : forall v, jval_ok v -> show_jval_u v = show_jval v.
+Proof.
+  fix IH 1. intros [d|s|l] H; cbn [show_jval_u show_jval].
+  - reflexivity.
+  - apply esc_string_utf8_ascii. exact H.
+  - f_equal. f_equal. f_equal. change (all_ok l) in H. revert H.
+    refine ((fix go (l : list jval) : all_ok l -> map show_jval_u l = map show_jval l :=
+               match l with
+               | [] => fun _ => eq_refl
+               | y :: r => fun H => f_equal2 cons (IH y (proj1 H)) (go r (proj2 H))
+               end) l).
+Qed.
+
+(* under the default configuration the general formatter IS the default formatter of Model/Render.v *)
+Theorem format_default_json m : format_json c0 m = Some (json_default m).
+Proof.
+  unfold format_json. change (cFields c0) with (map (fun r : string * string * N * ckind => let '(j, _, _, _) := r in j) name_table).
+  rewrite (default_members_eq m name_table (incl_refl _)). fold (default_members m).
+  unfold json_default, format_object. f_equal. f_equal. f_equal. f_equal.
+  apply map_ext_in. intros [k v] Hin. unfold show_member_u, show_member. cbn [fst snd]. f_equal. f_equal. f_equal.
+  apply show_jval_u_ascii. unfold default_members in Hin. apply in_map_iff in Hin.
+  destruct Hin as ([[[js go] col] kk] & E & _). inversion E; subst. apply render_col_ok.
+Qed.
+
+Theorem format_default_text m : format_text c0 m = Some (text_default m).
+Proof.
+  unfold format_text. change (cFields c0) with (map (fun r : string * string * N * ckind => let '(j, _, _, _) := r in j) name_table).
+  rewrite (default_members_eq m name_table (incl_refl _)). reflexivity.
 Qed.
